@@ -304,6 +304,9 @@ def fold_listeners(ctx, rep, R2, ab, ac, ana, atk, ara):
         def __len__(self):
             return len(self.nodes)
 
+        def __bool__(self):
+            return True
+
         def __iter__(self):
             return iter(self.nodes)
 
